@@ -175,6 +175,12 @@ def run_unary(ctx, pt):
                             X = P_(a, k)
                             ctx.attempt(lambda: X.__setitem__(slice(st, sp, step), V))
                             ctx.eq('C16/setitem-slice-poly/value-changed', val(V), (list(v[:-1]), k))
+                            # whatever a value of another length / a wider ring / raw bytes does to the target, every
+                            # coefficient of the target stays inside its ring
+                            for wide in (Poly([255, 254][:max(1, len(idx) - 1)], 8), bytes([0xf5, 0x07][:max(1, len(idx) - 1)]), [1 << (k + 2)] * (len(idx) - 1)):
+                                X = P_(a, k)
+                                ctx.attempt(lambda: X.__setitem__(slice(st, sp, step), wide))
+                                ctx.ok('C16/setitem-slice/coefficient-outside-the-ring', all(0 <= c <= m for c in X.ival) and X.size == k, val(X))
                         ctx.eq('C16/setitem-slice-poly', ctx.attempt(f2), ('ok', ((na, k), (list(v), k))))
     if d <= 4:
         for ln in range(1, 4):
@@ -252,6 +258,8 @@ def run_chunks(ctx, pt):
         be = [(x >> (k2 * j)) & ((1 << k2) - 1) for x in a for j in reversed(range(n))]
         ctx.eq('C16/split', ctx.attempt(lambda: val(A.split(k2))), ('ok', (le, k2)))
         ctx.eq('C16/split-bigend', ctx.attempt(lambda: val(A.split(k2, bigend=True))), ('ok', (be, k2)))
+        ctx.eq('C16/split-bigend/truthy-flag', ctx.attempt(lambda: val(A.split(k2, bigend=1))), ('ok', (be, k2)))
+        ctx.eq('C16/split/falsy-flag', ctx.attempt(lambda: val(A.split(k2, bigend=0))), ('ok', (le, k2)))
     ctx.eq('C16/pack', ctx.attempt(lambda: pack(A)), ('ok', b''.join(x.to_bytes(k // 8, 'little') for x in a)))
     ctx.eq('C16/pack-of-bigend-split', ctx.attempt(lambda: pack(A.split(8, bigend=True))),
            ('ok', b''.join(x.to_bytes(k // 8, 'big') for x in a)))
